@@ -162,6 +162,49 @@ class Exec(object):
         if name == 'q_getattr':
             attr = ('bal', 'name', 'note', 'id')[b % 4]
             return select(getattr(x, attr) for x in Acct).order_by(1)[:]
+        if name == 'q_shape':
+            # a query whose translator has a parameter VALUE baked in (attribute named at run time, constant slice /
+            # index bound), reshaped by the Query methods that derive a new translator from it and cache that one
+            # under a key of their own (order_by, order_by(None), filter, where, distinct, without_distinct)
+            k = a % 4
+            if k == 0:
+                attr = ('bal', 'name', 'note', 'id')[b % 4]
+                q = select(getattr(x, attr) for x in Acct)
+            elif k == 1:
+                attr = ('bal', 'name', 'note', 'id')[b % 4]
+                q = select(x.id for x in Acct if getattr(x, attr) != v)
+            elif k == 2:
+                i, j = SLICES[b % len(SLICES)]
+                q = select(x.name[:j] for x in Acct) if i is None else select(x.name[i:] for x in Acct) if j is None \
+                    else select(x.name[i:j] for x in Acct)
+            else:
+                i = (b % 7) - 3
+                q = select(x.name[i] for x in Acct)
+            n = c
+            for _ in range(1 + a // 4 % 3):
+                step, n = n % 7, n // 7
+                if step == 0:
+                    q = q.order_by(1)
+                elif step == 1:
+                    q = q.order_by(None)
+                elif step == 2:
+                    q = q.filter(lambda y: y != 'zz')
+                elif step == 3:
+                    q = q.where(lambda y: y != -1)
+                elif step == 4:
+                    q = q.distinct()
+                elif step == 5:
+                    q = q.without_distinct()
+                else:
+                    q = q.order_by(desc(1))
+            fin = a // 12 % 4
+            if fin == 0:
+                return sorted(q[:], key=repr)
+            if fin == 1:
+                return q.count()
+            if fin == 2:
+                return q.exists()
+            return sorted(q.without_distinct()[:], key=repr)
         if name == 'q_lambda':
             return Acct.select(lambda x: x.bal > v).order_by(Acct.id)[:]
         if name == 'q_str':
